@@ -6,6 +6,7 @@ CONSTANTS
  NStripes = 3
  KeySets <- Gen2KeySets
  Deviations = {"EmptyKeyUnlatched"}
+ LateReleasers = {}
  MaxHist = 100
  MaxPre = 100
  defaultInitValue = 0
